@@ -306,6 +306,11 @@ def run(ctx) -> None:
     # ---------------------------------------------------------------- R25.3
     r3 = ctx.rule("R25.3", "get_system_R: SOC added to 'Ham' only; blocks mapped through their own R-map", min_instances=5)
     f = idx.function(SOCS, "SystemSOC.get_system_R")
+    from ..sem import inline_private_helpers as _iph
+    from .memo import check_memo_results_not_mutated as _cmm
+    if _cmm(r3, idx, idx.cls(SOCS, "SystemSOC")) == 0:
+        r3.ok("no in-place update of an object handed out by a caching method of SystemSOC")
+    f = _iph(idx, f)
     cfg, du, pm = fctx(f)
     r3.instance(f.short)
     mr = [c for c in ast.walk(f.node) if isinstance(c, ast.Call) and call_name(c) == "merge_Rvectors"]
@@ -418,6 +423,26 @@ def run(ctx) -> None:
             continue
         n_ang += 1
         r5.instance(f"{f_.short}({', '.join(angs)})")
+        # unit typestate: once an angle parameter has been converted to radians it must not travel together with the caller's unit tag
+        up_ = next((p_ for p_ in f_.params if p_ == "units"), None)
+        if up_ is not None:
+            conv_ = {}
+            for st_ in ast.walk(f_.node):
+                if isinstance(st_, ast.Assign):
+                    pairs_ = list(zip(st_.targets[0].elts, st_.value.elts)) if isinstance(st_.targets[0], ast.Tuple) and isinstance(st_.value, ast.Tuple) \
+                        and len(st_.targets[0].elts) == len(st_.value.elts) else [(st_.targets[0], st_.value)]
+                    for t_, v_ in pairs_:
+                        tv_ = norm(v_).replace(" ", "")
+                        if isinstance(t_, ast.Name) and t_.id in angs and t_.id in {n_.id for n_ in ast.walk(v_) if isinstance(n_, ast.Name)} and \
+                                (any(isinstance(c_, ast.Call) and call_name(c_).split(".")[-1] in ("deg2rad", "radians") for c_ in ast.walk(v_)) or "pi/180" in tv_ or "/180" in tv_):
+                            conv_[t_.id] = st_
+            for c_ in ast.walk(f_.node):
+                if isinstance(c_, ast.Call) and any(k_.arg == "units" and isinstance(k_.value, ast.Name) and k_.value.id == up_ for k_ in c_.keywords):
+                    passed_ = [a_ for a_ in list(c_.args) + [k_.value for k_ in c_.keywords] if isinstance(a_, ast.Name) and a_.id in conv_
+                               and conv_[a_.id].lineno < c_.lineno]
+                    for a_ in passed_:
+                        r5.violation(f_, c_, f"`{norm1(c_, 90)}` forwards `units={up_}` together with `{a_.id}`, which `{norm1(conv_[a_.id])}` has already converted to "
+                                     f"radians: with units='degrees' the angle is converted twice and the spin axis used for the SOC term is not the requested one")
         for b_ in ast.walk(f_.node):
             if isinstance(b_, ast.BinOp) and isinstance(b_.op, ast.Mod) and isinstance(b_.left, ast.Name) and b_.left.id in angs:
                 t_ = norm(b_.right).replace(" ", "").replace("numpy", "np").replace("math.pi", "np.pi")
@@ -478,6 +503,8 @@ def run(ctx) -> None:
 from ..selftest import V  # noqa: E402
 
 SELFTEST = [
+    V("converted angles forwarded together with the unit tag (seeded C25-m6)", SOCS, "        pauli_rotated = SOC.get_pauli_rotated(theta=theta, phi=phi)\n",
+      "        pauli_rotated = SOC.get_pauli_rotated(theta=theta, phi=phi, units=units)\n", "fire", "R25.5"),
     V("azimuth of the spin axis folded modulo pi (seeded C25-m4)", "wannierberri/w90files/soc.py", "    def get_C_ss(cls, theta=0, phi=0):\n", "    def get_C_ss(cls, theta=0, phi=0):\n        phi = phi % np.pi\n", "fire", "R25.5"),
     V("neutral: azimuth reduced by a full turn", "wannierberri/w90files/soc.py", "    def get_C_ss(cls, theta=0, phi=0):\n", "    def get_C_ss(cls, theta=0, phi=0):\n        phi = phi % (2 * np.pi)\n", "silent"),
     V("down block of HH_K taken from the up channel", DKS, "H[:, 1::2, 1::2] = self.data_K_down.HH_K", "H[:, 1::2, 1::2] = self.data_K_up.HH_K",
